@@ -353,10 +353,14 @@ def records(path):
         d = f.read()
     pos = 0
     while pos < len(d):
+        if pos + 16 > len(d):
+            break  # the writer died inside its last write(): an incomplete record at the very end is not a result
         m, jl, fl, el = struct.unpack("<IIII", d[pos:pos + 16])
         if m != MAGIC:
             raise RuntimeError("corrupt dump file %s at %d" % (path, pos))
         pos += 16
+        if pos + jl + fl + el > len(d):
+            break
         j = json.loads(d[pos:pos + jl].decode())
         pos += jl
         yield j, d[pos:pos + fl], d[pos + fl:pos + fl + el]
